@@ -220,11 +220,12 @@ def group_case(draw, tier="quick"):
     nv = draw(st.integers(1, 3))
     vals = []
     for _ in range(nv):
-        kind = draw(st.sampled_from(["int", "int", "float", "bool", "str", "date", "bigint", "bigfloat"]))
+        kind = draw(st.sampled_from(["int", "int", "float", "bool", "str", "date", "bigint", "bigfloat", "cancel"]))
         el = {"int": st.integers(-5, 9), "float": st.sampled_from([0.5, 1.5, -2.0, 3.25, 0.0, 10.0]), "bool": st.booleans(),
               "str": st.sampled_from(["a", "b", "c", ""]), "date": st.sampled_from(KEY_ALPHABETS["date"]),
               "bigint": st.sampled_from([10 ** 8 + 1, 10 ** 8 + 2, 10 ** 8 + 3, 10 ** 8 + 7]),
-              "bigfloat": st.sampled_from([1e9 + 0.1, 1e9 + 0.2, 1e9 + 0.3, 1e9 + 0.75])}[kind]
+              "bigfloat": st.sampled_from([1e9 + 0.1, 1e9 + 0.2, 1e9 + 0.3, 1e9 + 0.75]),
+              "cancel": st.sampled_from([1e16, 1.0, -1e16, 3.3, 1e100, -1e100, 2.2])}[kind]
         mode = draw(st.sampled_from(["no", "some", "some", "all"]))
         xs = draw(st.lists(el, min_size=n, max_size=n))
         if mode == "some":
